@@ -5,6 +5,10 @@ use lorawan::maccommands::*;
 use lorawan::multicast::*;
 use std::hint::black_box as bb;
 
+fn ints(b: &[u8]) -> String {
+    b.iter().map(|x| x.to_string()).collect::<Vec<_>>().join(" ")
+}
+
 fn perr(e: ParseError) -> String {
     match e {
         ParseError::UnknownCid(c) => format!("E:U{c}"),
@@ -34,7 +38,7 @@ fn dl_mac(d: &[u8], acc: &mut Vec<String>) -> Vec<String> {
                         "{} {} {} {} {} {}",
                         p.data_rate() as u8,
                         p.tx_power() as u8,
-                        hex(p.channel_mask().as_ref()),
+                        u16::from_le_bytes([p.channel_mask().as_ref()[0], p.channel_mask().as_ref()[1]]),
                         p.redundancy().raw_value(),
                         p.redundancy().channel_mask_control(),
                         p.redundancy().number_of_transmissions()
@@ -50,14 +54,14 @@ fn dl_mac(d: &[u8], acc: &mut Vec<String>) -> Vec<String> {
                         p.dl_settings().rx2_data_rate() as u8,
                         p.frequency().value()
                     )),
-                    DownlinkMacCommand::DevStatusReq(_) => acc.push("-".into()),
+                    DownlinkMacCommand::DevStatusReq(_) => acc.push("".into()),
                     DownlinkMacCommand::NewChannelReq(p) => acc.push(format!(
                         "{} {} {}",
                         p.channel_index(),
                         p.frequency().value(),
                         match p.data_rate_range() {
-                            Ok(r) => format!("{}-{}", r.min_data_rate(), r.max_data_rate()),
-                            Err(_) => "ERR".into(),
+                            Ok(r) => format!("{} {}", r.min_data_rate(), r.max_data_rate()),
+                            Err(_) => "-1 -1".into(),
                         }
                     )),
                     DownlinkMacCommand::RXTimingSetupReq(p) => acc.push(format!("{}", p.delay())),
@@ -119,7 +123,7 @@ fn ul_mac(d: &[u8], acc: &mut Vec<String>) -> Vec<String> {
                         p.uplink_freq_ack() as u8,
                         p.ack() as u8
                     )),
-                    _ => acc.push("-".into()),
+                    _ => acc.push("".into()),
                 }
             }
         }
@@ -142,11 +146,11 @@ fn dl_dut(d: &[u8], acc: &mut Vec<String>) -> Vec<String> {
                 out.push(format!("{}:{}", c.cid(), hex(c.bytes())));
                 bb(c.len());
                 match c {
-                    DownlinkDUTCommand::AdrBitChangeReq(p) => acc.push(format!("{:?}", p.adr_enable().ok())),
-                    DownlinkDUTCommand::TxPeriodicityChangeReq(p) => acc.push(format!("{:?}", p.periodicity().ok())),
-                    DownlinkDUTCommand::TxFramesCtrlReq(p) => acc.push(format!("{:?}", p.frame_type_override().ok())),
-                    DownlinkDUTCommand::EchoIncPayloadReq(p) => acc.push(hex(p.payload())),
-                    _ => acc.push("-".into()),
+                    DownlinkDUTCommand::AdrBitChangeReq(p) => acc.push(match p.adr_enable() { Ok(b) => (b as i32).to_string(), Err(_) => "-1".into() }),
+                    DownlinkDUTCommand::TxPeriodicityChangeReq(p) => acc.push(match p.periodicity() { Ok(Some(v)) => v.to_string(), Ok(None) => "-2".into(), Err(_) => "-1".into() }),
+                    DownlinkDUTCommand::TxFramesCtrlReq(p) => acc.push(match p.frame_type_override() { Ok(Some(v)) => (v as i32).to_string(), Ok(None) => "-2".into(), Err(_) => "-1".into() }),
+                    DownlinkDUTCommand::EchoIncPayloadReq(p) => acc.push(ints(p.payload())),
+                    _ => acc.push("".into()),
                 }
             }
         }
@@ -169,8 +173,8 @@ fn ul_dut(d: &[u8], acc: &mut Vec<String>) -> Vec<String> {
                 out.push(format!("{}:{}", c.cid(), hex(c.bytes())));
                 bb(c.len());
                 match c {
-                    UplinkDUTCommand::EchoIncPayloadAns(p) => acc.push(hex(p.payload())),
-                    _ => acc.push("-".into()),
+                    UplinkDUTCommand::EchoIncPayloadAns(p) => acc.push(ints(p.payload())),
+                    _ => acc.push("".into()),
                 }
             }
         }
@@ -202,7 +206,7 @@ fn dl_mc(d: &[u8], acc: &mut Vec<String>) -> Vec<String> {
                         p.max_mc_fcount()
                     )),
                     DownlinkRemoteSetup::McGroupDeleteReq(p) => acc.push(format!("{}", p.mc_group_id_header())),
-                    _ => acc.push("-".into()),
+                    _ => acc.push("".into()),
                 }
             }
         }
@@ -228,12 +232,12 @@ fn ul_mc(d: &[u8], acc: &mut Vec<String>) -> Vec<String> {
                     UplinkRemoteSetup::PackageVersionAns(p) => acc.push(format!("{} {}", p.package_identifier(), p.package_version())),
                     UplinkRemoteSetup::McGroupStatusAns(p) => {
                         let items: Vec<String> =
-                            p.item_iterator().map(|i| format!("{}/{}", i.mc_group_id(), i.mc_addr().value())).collect();
-                        acc.push(format!("{} {} [{}]", p.ans_group_mask(), p.nb_total_groups(), items.join(";")))
+                            p.item_iterator().map(|i| format!("{} {}", i.mc_group_id(), i.mc_addr().value())).collect();
+                        acc.push(format!("{} {} {}", p.ans_group_mask(), p.nb_total_groups(), items.join(" ")).trim_end().to_string())
                     }
                     UplinkRemoteSetup::McGroupSetupAns(p) => acc.push(format!("{}", p.mc_group_id_header())),
                     UplinkRemoteSetup::McGroupDeleteAns(p) => acc.push(format!("{} {}", p.mc_group_id_header(), p.mc_group_undefined() as u8)),
-                    _ => acc.push("-".into()),
+                    _ => acc.push("".into()),
                 }
             }
         }
@@ -304,6 +308,236 @@ pub fn run_op(op: &str, a: &[&str]) -> String {
             }
             format!("{h} {panics}")
         }
+        "mc_build" => mc_build(a),
+        "mc_seq" => mc_seq(a),
+        "ident" => ident(a),
         _ => format!("UNKNOWN-OP {op}"),
+    }
+}
+
+/// parse "<f>=<v>" / "<f>=<v>:<w>" / "<f>=x<hex>"
+fn arg(s: &str) -> (u32, i64, u64, Vec<u8>) {
+    let (f, v) = s.split_once('=').unwrap();
+    let f: u32 = int(f);
+    if let Some(h) = v.strip_prefix('x') {
+        return (f, 0, 0, unhex(h));
+    }
+    if let Some((a, b)) = v.split_once(':') {
+        return (f, int::<i64>(a), int::<u64>(b), vec![]);
+    }
+    (f, int::<i64>(v), 0, vec![])
+}
+
+fn mc_build(a: &[&str]) -> String {
+    use lorawan::maccommandcreator::*;
+    use lorawan::parser::McAddr;
+    let c: u32 = int(a[0]);
+    let args: Vec<(u32, i64, u64, Vec<u8>)> = a[1..].iter().map(|s| arg(s)).collect();
+    macro_rules! go {
+        ($cr:expr, $apply:expr) => {{
+            let mut cr = $cr;
+            for (k, (f, v, w, raw)) in args.iter().enumerate() {
+                let ok: bool = $apply(&mut cr, *f, *v, *w, raw);
+                if !ok {
+                    return format!("ERR {k}");
+                }
+            }
+            hex(cr.build())
+        }};
+    }
+    let f3 = |v: i64| {
+        let le = (v as u32).to_le_bytes();
+        [le[0], le[1], le[2]]
+    };
+    match c {
+        1 => go!(LinkCheckAnsCreator::new(), |cr: &mut LinkCheckAnsCreator, f, v, _w, _r: &Vec<u8>| {
+            match f { 0 => { cr.set_margin(v as u8); } _ => { cr.set_gateway_count(v as u8); } }
+            true
+        }),
+        2 => go!(LinkADRReqCreator::new(), |cr: &mut LinkADRReqCreator, f, v, _w, _r: &Vec<u8>| match f {
+            0 => cr.set_data_rate(v as u8).is_ok(),
+            1 => cr.set_tx_power(v as u8).is_ok(),
+            2 => { cr.set_channel_mask(lorawan::types::ChannelMask::<2>::from((v as u16).to_le_bytes())); true }
+            _ => { cr.set_redundancy(v as u8); true }
+        }),
+        3 => go!(DutyCycleReqCreator::new(), |cr: &mut DutyCycleReqCreator, _f, v, _w, _r: &Vec<u8>| cr.set_max_duty_cycle(v as u8).is_ok()),
+        4 => go!(RXParamSetupReqCreator::new(), |cr: &mut RXParamSetupReqCreator, f, v, _w, _r: &Vec<u8>| {
+            match f { 0 => { cr.set_dl_settings(v as u8); } _ => { cr.set_frequency(&f3(v)); } }
+            true
+        }),
+        5 => go!(NewChannelReqCreator::new(), |cr: &mut NewChannelReqCreator, f, v, _w, _r: &Vec<u8>| {
+            match f { 0 => { cr.set_channel_index(v as u8); } 1 => { cr.set_frequency(&f3(v)); } _ => { cr.set_data_rate_range(v as u8); } }
+            true
+        }),
+        6 => go!(RXTimingSetupReqCreator::new(), |cr: &mut RXTimingSetupReqCreator, _f, v, _w, _r: &Vec<u8>| cr.set_delay(v as u8).is_ok()),
+        7 => go!(TXParamSetupReqCreator::new(), |cr: &mut TXParamSetupReqCreator, f, v, _w, _r: &Vec<u8>| match f {
+            0 => { cr.set_downlink_dwell_time(v != 0); true }
+            1 => { cr.set_uplink_dwell_time(v != 0); true }
+            _ => cr.set_max_eirp(v as u8).is_ok(),
+        }),
+        8 => go!(DlChannelReqCreator::new(), |cr: &mut DlChannelReqCreator, f, v, _w, _r: &Vec<u8>| {
+            match f { 0 => { cr.set_channel_index(v as u8); } _ => { cr.set_frequency(&f3(v)); } }
+            true
+        }),
+        9 => go!(DeviceTimeAnsCreator::new(), |cr: &mut DeviceTimeAnsCreator, f, v, _w, _r: &Vec<u8>| match f {
+            0 => { cr.set_seconds(v as u32); true }
+            _ => cr.set_nano_seconds(v as u32).is_ok(),
+        }),
+        10 => go!(LinkADRAnsCreator::new(), |cr: &mut LinkADRAnsCreator, f, v, _w, _r: &Vec<u8>| {
+            match f { 0 => { cr.set_channel_mask_ack(v != 0); } 1 => { cr.set_data_rate_ack(v != 0); } _ => { cr.set_tx_power_ack(v != 0); } }
+            true
+        }),
+        11 => go!(RXParamSetupAnsCreator::new(), |cr: &mut RXParamSetupAnsCreator, f, v, _w, _r: &Vec<u8>| {
+            match f { 0 => { cr.set_channel_ack(v != 0); } 1 => { cr.set_rx2_data_rate_ack(v != 0); } _ => { cr.set_rx1_data_rate_offset_ack(v != 0); } }
+            true
+        }),
+        12 => go!(DevStatusAnsCreator::new(), |cr: &mut DevStatusAnsCreator, f, v, _w, _r: &Vec<u8>| match f {
+            0 => { cr.set_battery(v as u8); true }
+            _ => cr.set_margin(v as i8).is_ok(),
+        }),
+        13 => go!(NewChannelAnsCreator::new(), |cr: &mut NewChannelAnsCreator, f, v, _w, _r: &Vec<u8>| {
+            match f { 0 => { cr.set_channel_frequency_ack(v != 0); } _ => { cr.set_data_rate_range_ack(v != 0); } }
+            true
+        }),
+        14 => go!(DlChannelAnsCreator::new(), |cr: &mut DlChannelAnsCreator, f, v, _w, _r: &Vec<u8>| {
+            match f { 0 => { cr.set_channel_frequency_ack(v != 0); } _ => { cr.set_uplink_frequency_exists_ack(v != 0); } }
+            true
+        }),
+        15 => go!(RxAppCntAnsCreator::new(), |cr: &mut RxAppCntAnsCreator, _f, v, _w, _r: &Vec<u8>| { cr.set_rx_app_cnt(v as u16); true }),
+        16 => go!(DutVersionsAnsCreator::new(), |cr: &mut DutVersionsAnsCreator, _f, _v, _w, r: &Vec<u8>| {
+            let mut x = [0u8; 12];
+            x.copy_from_slice(r);
+            cr.set_versions_raw(x);
+            true
+        }),
+        17 => go!(EchoIncPayloadAnsCreator::new(), |cr: &mut EchoIncPayloadAnsCreator, _f, _v, _w, r: &Vec<u8>| { cr.payload(r); true }),
+        18 => go!(PackageVersionAnsCreator::new(), |cr: &mut PackageVersionAnsCreator, f, v, _w, _r: &Vec<u8>| {
+            match f { 0 => { cr.package_identifier(v as u8); } _ => { cr.package_version(v as u8); } }
+            true
+        }),
+        19 => go!(McGroupStatusReqCreator::new(), |cr: &mut McGroupStatusReqCreator, f, v, _w, _r: &Vec<u8>| {
+            match f { 0 => cr.req_group_mask(v as u8), _ => cr.req_group(v as u8) }
+            true
+        }),
+        20 => go!(McGroupSetupReqCreator::new(), |cr: &mut McGroupSetupReqCreator, f, v, _w, _r: &Vec<u8>| {
+            match f {
+                0 => { cr.mc_group_id_header(v as u8); }
+                1 => { cr.mc_addr(&McAddr::from_value(v as u32)); }
+                2 => { cr.min_mc_fcount(v as u32); }
+                _ => { cr.max_mc_fcount(v as u32); }
+            }
+            true
+        }),
+        21 => go!(McGroupSetupAnsCreator::new(), |cr: &mut McGroupSetupAnsCreator, _f, v, _w, _r: &Vec<u8>| { cr.mc_group_id_header(v as u8); true }),
+        22 => go!(McGroupDeleteReqCreator::new(), |cr: &mut McGroupDeleteReqCreator, _f, v, _w, _r: &Vec<u8>| { cr.mc_group_id_header(v as u8); true }),
+        23 => go!(McGroupDeleteAnsCreator::new(), |cr: &mut McGroupDeleteAnsCreator, f, v, _w, _r: &Vec<u8>| {
+            match f { 0 => { cr.mc_group_id_header(v as u8); } _ => { cr.mc_group_undefined(v != 0); } }
+            true
+        }),
+        24 => go!(McGroupStatusAnsCreator::new(), |cr: &mut McGroupStatusAnsCreator, f, v, w, _r: &Vec<u8>| match f {
+            0 => { cr.nb_total_groups(v as u8); true }
+            _ => cr.push(v as u8, McAddr::from_value(w as u32)).is_ok(),
+        }),
+        31 => hex(DevStatusReqCreator::new().build()),
+        32 => hex(LinkCheckReqCreator::new().build()),
+        33 => hex(DutyCycleAnsCreator::new().build()),
+        34 => hex(RXTimingSetupAnsCreator::new().build()),
+        35 => hex(TXParamSetupAnsCreator::new().build()),
+        36 => hex(DeviceTimeReqCreator::new().build()),
+        _ => "BADARGS".into(),
+    }
+}
+
+/// identifier text forms: ident <type> <value> -> "<to_string> <parsed back value | ERR>" ; ident parse <type> <string>
+fn ident(a: &[&str]) -> String {
+    use core::str::FromStr;
+    use lorawan::parser::{DevAddr, DevNonce, JoinNonce, NetId, McAddr};
+    macro_rules! rt {
+        ($t:ty, $int:ty) => {{
+            if a[0] == "parse" {
+                match <$t>::from_str(a[2]) { Ok(x) => x.value().to_string(), Err(_) => "ERR".into() }
+            } else {
+                let x = <$t>::from_value(int::<$int>(a[1]));
+                let s = x.to_string();
+                let back = match <$t>::from_str(&s) { Ok(y) => y.value().to_string(), Err(_) => "ERR".into() };
+                format!("{s} {back} {}", hex(x.as_wire_bytes()))
+            }
+        }};
+    }
+    let t = if a[0] == "parse" { a[1] } else { a[0] };
+    match t {
+        "devaddr" => rt!(DevAddr, u32),
+        "mcaddr" => rt!(McAddr, u32),
+        "devnonce" => rt!(DevNonce, u16),
+        "joinnonce" => rt!(JoinNonce, u32),
+        "netid" => rt!(NetId, u32),
+        "deveui" => rt!(lorawan::parser::DevEui, u64),
+        "joineui" => rt!(lorawan::parser::JoinEui, u64),
+        "key" | "keys_deveui" => {
+            // keys.rs / string.rs types: AppKey etc. print MSB-first as stored; DevEui/AppEui print reversed (LSB storage)
+            if a[0] == "parse" {
+                if t == "key" {
+                    match lorawan::keys::AppKey::from_str(a[2]) { Ok(k) => hex(k.as_ref()), Err(_) => "ERR".into() }
+                } else {
+                    match lorawan::keys::DevEui::from_str(a[2]) { Ok(k) => hex(k.as_ref()), Err(_) => "ERR".into() }
+                }
+            } else if t == "key" {
+                let mut k = [0u8; 16];
+                k.copy_from_slice(&unhex(a[1]));
+                let x = lorawan::keys::NwkSKey::from(k);
+                let s = x.to_string();
+                let back = match lorawan::keys::NwkSKey::from_str(&s) { Ok(y) => hex(y.as_ref()), Err(_) => "ERR".into() };
+                format!("{s} {back}")
+            } else {
+                let mut k = [0u8; 8];
+                k.copy_from_slice(&unhex(a[1]));
+                let x = lorawan::keys::DevEui::from(k);
+                let s = x.to_string();
+                let back = match lorawan::keys::DevEui::from_str(&s) { Ok(y) => hex(y.as_ref()), Err(_) => "ERR".into() };
+                format!("{s} {back}")
+            }
+        }
+        _ => "BADARGS".into(),
+    }
+}
+
+
+/// mc_seq <bufsize> <id,id,...>: build_mac_commands over default-constructed creators
+fn mc_seq(a: &[&str]) -> String {
+    use lorawan::maccommandcreator::*;
+    let n: usize = int(a[0]);
+    let ids: Vec<u32> = if a[1] == "-" { vec![] } else { a[1].split(',').map(|x| int::<u32>(x)).collect() };
+    let mut boxes: Vec<Box<dyn SerializableMacCommand>> = vec![];
+    for id in ids {
+        let b: Box<dyn SerializableMacCommand> = match id {
+            1 => Box::new(LinkCheckAnsCreator::new()),
+            2 => Box::new(LinkADRReqCreator::new()),
+            3 => Box::new(DutyCycleReqCreator::new()),
+            4 => Box::new(RXParamSetupReqCreator::new()),
+            5 => Box::new(NewChannelReqCreator::new()),
+            6 => Box::new(RXTimingSetupReqCreator::new()),
+            7 => Box::new(TXParamSetupReqCreator::new()),
+            8 => Box::new(DlChannelReqCreator::new()),
+            9 => Box::new(DeviceTimeAnsCreator::new()),
+            10 => Box::new(LinkADRAnsCreator::new()),
+            11 => Box::new(RXParamSetupAnsCreator::new()),
+            12 => Box::new(DevStatusAnsCreator::new()),
+            13 => Box::new(NewChannelAnsCreator::new()),
+            14 => Box::new(DlChannelAnsCreator::new()),
+            31 => Box::new(DevStatusReqCreator::new()),
+            32 => Box::new(LinkCheckReqCreator::new()),
+            33 => Box::new(DutyCycleAnsCreator::new()),
+            34 => Box::new(RXTimingSetupAnsCreator::new()),
+            35 => Box::new(TXParamSetupAnsCreator::new()),
+            36 => Box::new(DeviceTimeReqCreator::new()),
+            _ => return "BADARGS".into(),
+        };
+        boxes.push(b);
+    }
+    let refs: Vec<&dyn SerializableMacCommand> = boxes.iter().map(|b| b.as_ref()).collect();
+    let mut buf = vec![0xAAu8; n];
+    match build_mac_commands(&refs, &mut buf[..]) {
+        Ok(k) => format!("OK {k} {}", hex(&buf)),
+        Err(_) => format!("ERR {}", hex(&buf)),
     }
 }
